@@ -3,6 +3,7 @@ import CsVerif.Props.C15
 import CsVerif.Props.C09
 import CsVerif.Props.C02
 import CsVerif.Props.C20
+import CsVerif.Props.C17
 /-! Helper lemmas for C01 (no property statements here; core Lean only, no Mathlib).
 
 Contents: (1) `Sim`: a file-like object behaves as a plain `PyFile` (instances: the file itself, and — by C09's
@@ -10,7 +11,10 @@ Contents: (1) `Sim`: a file-like object behaves as a plain `PyFile` (instances: 
 yield = head of `C15.needleLoop`, hence (C15 `needleLoop_start`) the least occurrence; (3) key loop, the two phases,
 the all-keys retry, `from_file` = `extractSpec`; (4) order lemmas about `candidates`; (5) the residual key order is a
 permutation; (6) `detectRun` (driver side) answers as `C09.fromFileFull`; (7) what it
-returns satisfies the hypothesis `DetOk` of the theorems. -/
+returns satisfies the hypothesis `DetOk` of the theorems; (8)–(14) for the end-to-end theorems: `detectRun` answers as
+`C09.fromFileReal`, the all-keys counter never raises (same proof as `Lemmas/C08.lean`, which imports this property and cannot
+be imported here), `fromFileReal` = specification with nothing left as a parameter, least candidate = head of the list,
+decoded view of a stage, Guardrails fallback (`GuardClean`), `NotXorEncoded` in bytes. -/
 namespace C01
 open Gen.Extract
 
@@ -799,5 +803,279 @@ theorem detectRun_bound (B : Nat) (f : PyFile) (x : C09.XorFile) (g : PyFile)
     rw [(iterFindNeedle_frame B f1 _ _ _ _ _ h2).1, hd1] at this
     exact this
 
+
+/-! ### (8) the driver's detector is `C09.fromFileReal` -/
+
+theorem tryCands_full : ∀ (cs : List Nat) (g : PyFile),
+    (∃ x h, tryCands g cs = .ok (some x, h) ∧ C09.tryCandidatesFull g cs = .ok x) ∨
+    (∃ h, tryCands g cs = .ok (none, h) ∧ C09.tryCandidatesFull g cs = .error .valueError) := by
+  intro cs
+  induction cs with
+  | nil => intro g; exact Or.inr ⟨g, rfl, rfl⟩
+  | cons c cs ih =>
+    intro g
+    obtain ⟨x0, hx0, _, _, _⟩ := C09.mk'_ok g c
+    obtain ⟨r, q, hr⟩ := C09.findMzOffset_total x0 0 1024
+    rw [tryCands_cons, C09.tryCandidatesFull_cons]
+    simp only [hx0, hr]
+    cases r with
+    | some v => simp only [C09.seek0_ok]; exact Or.inl ⟨_, _, rfl, rfl⟩
+    | none => exact ih _
+
+/-- `detectRun` answers exactly as `C09.fromFileReal` (the subject of C09's `detect_*_real` theorems) with
+`maxrange = 1024`, and never raises -/
+theorem detectRun_real (B : Nat) (f : PyFile) :
+    (∃ x h, detectRun B f = .ok (some x, h) ∧ C09.fromFileReal B f 1024 = .ok x) ∨
+    (∃ h, detectRun B f = .ok (none, h) ∧ C09.fromFileReal B f 1024 = .error .valueError) := by
+  obtain ⟨l, f1, hl, _, _⟩ := C09.iterNonceOffsets_ok f 1024
+  obtain ⟨hits, f2, hm, _, _⟩ := C09.markerScan_ok B f1 1024
+  have hm' : C15.iterFindNeedle B f1 [0xff, 0xff, 0xff] (some 0) 1024 = .ok (hits, f2) := hm
+  simp only [detectRun, C09.fromFileReal, hl, hm, hm']
+  exact tryCands_full _ f2
+
+/-! ### (9) the all-keys counter never raises -/
+
+theorem countLoop_ok {σ : Type} {F : FileLike σ} {abs : σ → PyFile → Prop} (hS : Sim F abs) (B : Nat) :
+    ∀ (n : Nat) (s : σ) (pf : PyFile) (acc : List (Nat × Nat)), abs s pf → pf.data.length - pf.pos ≤ n →
+      ∃ r, countLoop F B s acc = .ok r := by
+  intro n
+  induction n with
+  | zero =>
+    intro s pf acc ha hn
+    obtain ⟨s', hr, _⟩ := hS.read s pf B ha
+    have hnil : (pf.read (B : Int)).1 = [] := by
+      rw [PyFile.read_nonneg]
+      have : pf.data.drop pf.pos = [] := List.drop_eq_nil_iff.mpr (by omega)
+      rw [this]; exact List.take_nil
+    rw [countLoop, hr]
+    simp only [hnil, if_true]
+    exact ⟨_, rfl⟩
+  | succ n ih =>
+    intro s pf acc ha hn
+    obtain ⟨s', hr, ha'⟩ := hS.read s pf B ha
+    rw [countLoop, hr]
+    simp only
+    by_cases hnil : (pf.read (B : Int)).1 = []
+    · rw [if_pos hnil]; exact ⟨_, rfl⟩
+    · rw [if_neg hnil]
+      have hp := C15.read_progress pf B hnil
+      have hrem : F.remaining s' < F.remaining s := by
+        rw [hS.remaining s' _ ha', hS.remaining s pf ha]; exact hp
+      rw [dif_pos hrem]
+      exact ih s' _ _ ha' (by omega)
+
+theorem leftKeys_ok (B : Nat) (f : PyFile) (det : Option Nat) (hdet : ∀ c, det = some c → c + 8 ≤ f.data.length)
+    (failPos : Nat) (ks : List Bytes) : ∃ left, leftKeys B f det failPos ks = .ok left := by
+  unfold leftKeys leftCounts
+  cases det with
+  | none =>
+    obtain ⟨r, hr⟩ := countLoop_ok sim_raw B _ ({ f with pos := failPos } : PyFile) _ [] rfl (Nat.le_refl _)
+    simp only [hr]
+    exact ⟨_, rfl⟩
+  | some c =>
+    obtain ⟨x, hx, hA⟩ := openView_spec f c (hdet c rfl)
+    obtain ⟨r, hr⟩ := countLoop_ok (sim_xor _ _ _ _) B _ x _ [] hA (Nat.le_refl _)
+    simp only [hx, hr]
+    exact ⟨_, rfl⟩
+
+/-- the residual keys are single bytes that are not among the given keys -/
+theorem leftKeys_mem (B : Nat) (f : PyFile) (det : Option Nat) (failPos : Nat) (ks left : List Bytes)
+    (h : leftKeys B f det failPos ks = .ok left) (k : Bytes) (hk : k ∈ left) : k ∈ makeByteList [] := by
+  unfold leftKeys at h
+  cases hc : leftCounts B f det failPos with
+  | error e => rw [hc] at h; cases h
+  | ok cnt =>
+    rw [hc] at h
+    injection h with h
+    rw [← h] at hk
+    have := ((stableSort_perm _ _).mem_iff).mp hk
+    rw [mem_makeByteList] at this ⊢
+    exact ⟨this.1, by simp⟩
+
+/-! ### (10) the search, and `from_file` with nothing left as a parameter -/
+
+theorem search_spec (B : Nat) (hB : 1 ≤ B) (f : PyFile) (ks : List Bytes) (allKeys : Bool) (det : Option Nat)
+    (hdet : ∀ c, det = some c → c + 8 ≤ f.data.length) (failPos : Nat) :
+    ∃ left, leftKeys B f det failPos ks = .ok left ∧
+      search B f ks allKeys det failPos = .ok ((searchSpec f.data ks allKeys det left).map Cand.result) := by
+  obtain ⟨p1, p2⟩ := pass_spec B hB f (effKeys ks) det hdet
+  obtain ⟨left, hleft⟩ := leftKeys_ok B f det hdet failPos ks
+  obtain ⟨q1, q2⟩ := pass_spec B hB f (effKeys left) det hdet
+  refine ⟨left, hleft, ?_⟩
+  simp only [search, searchSpec, hleft]
+  generalize pass B f (effKeys ks) true det = r at p1 p2
+  generalize pass B f (effKeys left) true det = r2 at q1 q2
+  generalize (candidates (views f.data det) (effKeys ks)).head? = c1 at p1
+  generalize (candidates (views f.data det) (effKeys left)).head? = c2 at q1
+  obtain ⟨ys, e⟩ := r
+  cases ys with
+  | cons y ys' =>
+    cases c1 with
+    | none => simp at p1
+    | some c =>
+      simp only [List.head?_cons, Option.map_some, Option.some.injEq] at p1
+      subst p1
+      rfl
+  | nil =>
+    have he := p2 rfl
+    simp only at he
+    subst he
+    cases c1 with
+    | some c => simp at p1
+    | none =>
+      cases allKeys with
+      | false => rfl
+      | true =>
+        obtain ⟨ys2, e2⟩ := r2
+        cases ys2 with
+        | cons y ys' =>
+          cases c2 with
+          | none => simp at q1
+          | some c =>
+            simp only [List.head?_cons, Option.map_some, Option.some.injEq] at q1
+            subst q1
+            rfl
+        | nil =>
+          have he2 := q2 rfl
+          simp only at he2
+          subst he2
+          cases c2 with
+          | some c => simp at q1
+          | none => rfl
+
+/-- **`from_file` = specification, nothing left as a parameter.**  `det` is the detector's answer characterised through
+`C09.fromFileReal`, `left` the residual key order `leftKeys` computes. -/
+theorem fromFileReal_spec (B : Nat) (hB : 1 ≤ B) (f : PyFile) (ks : List Bytes) (allKeys : Bool) :
+    ∃ (det : Option Nat) (failPos : Nat) (left : List Bytes),
+      (match det with
+       | some c => ∃ x, C09.fromFileReal B f 1024 = .ok x ∧ x.nonceOff = c
+       | none => C09.fromFileReal B f 1024 = .error .valueError) ∧
+      (∀ c, det = some c → c + 8 ≤ f.data.length) ∧
+      leftKeys B f det failPos ks = .ok left ∧
+      fromFileReal B f ks allKeys =
+        match searchSpec f.data ks allKeys det left with
+        | some c => .ok c.result.extracted
+        | none => guardFallback B (fhFor f det) := by
+  rcases detectRun_real B f with ⟨x, h, hd, hr⟩ | ⟨h, hd, hr⟩
+  · have hdet : ∀ c, (some x.nonceOff) = some c → c + 8 ≤ f.data.length := by
+      intro c hc
+      injection hc with hc
+      subst hc
+      exact Nat.le_of_lt (detectRun_bound B f x h hd)
+    obtain ⟨left, hl, hs⟩ := search_spec B hB f ks allKeys (some x.nonceOff) hdet h.pos
+    refine ⟨some x.nonceOff, h.pos, left, ⟨x, hr, rfl⟩, hdet, hl, ?_⟩
+    simp only [fromFileReal, hd, Option.map_some, hs]
+    cases searchSpec f.data ks allKeys (some x.nonceOff) left <;> rfl
+  · have hdet : ∀ c, (none : Option Nat) = some c → c + 8 ≤ f.data.length := by intro c hc; cases hc
+    obtain ⟨left, hl, hs⟩ := search_spec B hB f ks allKeys none hdet h.pos
+    refine ⟨none, h.pos, left, hr, hdet, hl, ?_⟩
+    simp only [fromFileReal, hd, Option.map_none, hs]
+    cases searchSpec f.data ks allKeys none left <;> rfl
+
+/-! ### (11) the least candidate is the head of the candidate list -/
+
+theorem idxOf_inj_of_mem {l : List Bytes} {a b : Bytes} (ha : a ∈ l) (hb : b ∈ l) (h : l.idxOf a = l.idxOf b) : a = b := by
+  have h1 := List.getElem_idxOf (List.idxOf_lt_length_iff.mpr ha)
+  have h2 := List.getElem_idxOf (List.idxOf_lt_length_iff.mpr hb)
+  rw [← h1, ← h2]
+  simp only [h]
+
+theorem candsIn_head_of_least (enc : Bool) (plain : Bytes) (keys : List Bytes) (k : Bytes) (i : Nat)
+    (hk : k ∈ keys) (hi : i ∈ occK plain k)
+    (hleast : ∀ k' ∈ keys, ∀ i' ∈ occK plain k', keys.idxOf k ≤ keys.idxOf k' ∧ (k' = k → i ≤ i')) :
+    (candsIn enc plain keys).head? = some ⟨enc, plain, k, i⟩ := by
+  have hmem : (⟨enc, plain, k, i⟩ : Cand) ∈ candsIn enc plain keys := mem_candsIn.mpr ⟨rfl, rfl, hk, hi⟩
+  cases hh : (candsIn enc plain keys).head? with
+  | none => rw [List.head?_eq_none_iff.mp hh] at hmem; cases hmem
+  | some c =>
+    obtain ⟨hc, hmin⟩ := candsIn_head_least enc plain keys c hh
+    obtain ⟨he, hp, hck, hco⟩ := mem_candsIn.mp hc
+    obtain ⟨m1, m2⟩ := hmin _ hmem
+    obtain ⟨l1, l2⟩ := hleast c.key hck c.offset hco
+    have hkey : c.key = k := idxOf_inj_of_mem hck hk (Nat.le_antisymm m1 l1)
+    have hoff : c.offset = i := Nat.le_antisymm (m2 hkey.symm) (l2 hkey)
+    obtain ⟨ce, cp, ck, co⟩ := c
+    simp only at he hp hkey hoff
+    subst he hp hkey hoff
+    rfl
+
+theorem candsIn_nil_of_noHeader (enc : Bool) (plain : Bytes) (keys : List Bytes)
+    (h : ∀ k ∈ keys, occK plain k = []) : candsIn enc plain keys = [] := by
+  apply List.eq_nil_iff_forall_not_mem.mpr
+  intro c hc
+  obtain ⟨_, _, hk, ho⟩ := mem_candsIn.mp hc
+  rw [h c.key hk] at ho
+  cases ho
+
+/-! ### (12) the decoded view of a stage -/
+
+theorem decodedView_layout (stub nonce size enc : Bytes) (hn : nonce.length = 4) (hs : size.length = 4) :
+    decodedView (stub ++ nonce ++ size ++ enc) stub.length = C09.rollDecode nonce enc := by
+  unfold decodedView
+  have e1 : ((stub ++ nonce ++ size ++ enc).drop stub.length).take 4 = nonce := by
+    simp only [List.append_assoc]; rw [List.drop_left, List.take_left' hn]
+  have e2 : (stub ++ nonce ++ size ++ enc).drop (stub.length + 8) = enc := by
+    have : stub.length + 8 = (stub ++ nonce ++ size).length := by simp [hn, hs]
+    rw [this, List.drop_left]
+  rw [e1, e2]
+
+/-! ### (13) Guardrails fallback -/
+open Gen.Guardrails in
+/-- no Guardrails record that the marker scan reports in `v` can be completed: at every offset where the marker relation
+holds (and a 6144-byte area fits in front) no candidate key reproduces the stored checksum.  Holds trivially when the
+marker relation holds nowhere, and for every `v` of at most 6138 bytes. -/
+def GuardClean (B : Nat) (v : Bytes) : Prop :=
+  ∀ off, off < v.length → C17.markerAt v (C17.maskedStarts defaultGuardXorKey) 6 off → BEACON_CONFIG_PATCH_SIZE ≤ off + 6 →
+    C17.NoMatch B (C17.metaAt v defaultGuardXorKey (off + 6) (off + 6 - BEACON_CONFIG_PATCH_SIZE))
+
+open Gen.Guardrails in
+theorem guardClean_of_short (B : Nat) (v : Bytes) (h : v.length + 6 ≤ BEACON_CONFIG_PATCH_SIZE) : GuardClean B v := by
+  intro off hoff _ h6
+  omega
+
+open Gen.Guardrails in
+theorem guardClean_of_no_marker (B : Nat) (v : Bytes)
+    (h : ∀ off, off < v.length → ¬ C17.markerAt v (C17.maskedStarts defaultGuardXorKey) 6 off) : GuardClean B v := by
+  intro off hoff hm _
+  exact absurd hm (h off hoff)
+
+theorem guardFallback_clean (B : Nat) (f : PyFile) (h : GuardClean B f.data) : guardFallback B f = .error .valueError := by
+  unfold guardFallback
+  rw [C17.no_match_valueError f B]
+  intro ms hms m hm
+  obtain ⟨off, h1, h2, h3, rfl⟩ := (C17.scan_reports_iff f _ ms hms m).mp hm
+  exact h off h1 h2 h3
+
+theorem fromFileFallback_data (f g : PyFile) (h : f.data = g.data) (B : Nat) :
+    C17.fromFileFallback f B = C17.fromFileFallback g B := by
+  unfold C17.fromFileFallback C17.iterGuardrailConfigsWithBeacon
+  rw [C17.iterGuardrailConfigs_eq, C17.iterGuardrailConfigs_eq, h]
+
+/-! ### (14) not detected as XorEncoded, in bytes -/
+
+/-- the offsets `XorEncodedFile.from_file` can try, read off the bytes: behind an `ff ff ff` that occurs in the first
+2 KiB, or a size-consistent offset below 1024 (C09 `real_candidates_characterised`) -/
+def DetectorCandidate (data : Bytes) (c : Nat) : Prop :=
+  (∃ h ∈ C15.occ data C09.eofMarker, c = h + 3 ∧ h ≤ 2 * 1024) ∨ (c < 1024 ∧ C09.SizeRel data (data.length : Int) c)
+
+/-- every offset the detector can try decodes to something that fails the MZ check -/
+def NotXorEncoded (f : PyFile) : Prop := ∀ c, DetectorCandidate f.data c → C09.mzVerdict f c = false
+
+theorem notXorEncoded_rejects (B : Nat) (hB : 1 ≤ B) (f : PyFile) (h : NotXorEncoded f) :
+    ∀ c ∈ C09.realCandidates B f 1024, C09.mzVerdict f c = false := by
+  intro c hc
+  apply h
+  rcases (C09.real_candidates_characterised B hB f 1024 c).1 hc with ⟨p, hp, rfl, hb⟩ | hs
+  · exact Or.inl ⟨p, hp, rfl, hb (by omega)⟩
+  · exact Or.inr hs
+
+/-- a sufficient condition on the bytes alone: no `ff ff ff` starts in the first 2049 bytes and no offset below 1024
+satisfies the size relation — then there is nothing for the detector to try -/
+theorem notXorEncoded_of_no_candidate (f : PyFile)
+    (hm : ∀ h ∈ C15.occ f.data C09.eofMarker, 2 * 1024 < h)
+    (hs : ∀ c, c < 1024 → ¬ C09.SizeRel f.data (f.data.length : Int) c) : NotXorEncoded f := by
+  rintro c (⟨p, hp, _, hb⟩ | ⟨hlt, hrel⟩)
+  · have := hm p hp; omega
+  · exact absurd hrel (hs c hlt)
 
 end C01
